@@ -14,16 +14,12 @@ NOT_DECIDED = ("re-entrancy through a malicious registered vAMM; key aliasing th
                "unvalidated vamm strings is only excluded where a rule demands the ownership test (R10.5).")
 
 
-def run(ctx):
+def poskey_instances(ctx, rule):
+    """every position store / remove keys on the acting (vamm, trader) pair - hash inputs traced to msg.vamm / info.sender,
+    msg.trader, or the in-flight record (shared by C10 / C02).  Returns the step table."""
     ix = ctx.ix
     w = ctx.world
     idt = Ident(ix)
-    ctx.rule("R10.1", "position stores/removes key on the acting (vamm, trader)", 9)
-    ctx.rule("R10.2", "tmp-swap.trader origin at every store of the record", 4)
-    ctx.rule("R10.3", "Position.vamm / Position.trader assigned only from the requested key", 1)
-    ctx.rule("R10.4", "query entry points take Deps (read-only); no unsafe code in any workspace crate (fixture must fire)", 7)
-    ctx.rule("R10.5", "DepositMargin: stored position's trader proven equal to info.sender before the store", 1)
-
     chains = arms.engine_chains(ix, ENG)
     steps = {}
     for key, sts in chains.items():
@@ -65,9 +61,24 @@ def run(ctx):
         if n_w == 0:
             continue
         n1 += 1
-        ctx.inst("R10.1", "poskey:%s:%s" % (short_fn(st.fn), st.label), bad is None, st.fn.where(),
+        ctx.inst(rule, "poskey:%s:%s" % (short_fn(st.fn), st.label), bad is None, st.fn.where(),
                  "%d position writes/removes over %d success paths, expected trader %s; %s" % (n_w, len(st.ok_paths()), who, bad or "all keyed on the acting pair"))
         ctx.note_paths(len(st.ok_paths()))
+
+    return steps
+
+
+def run(ctx):
+    ix = ctx.ix
+    w = ctx.world
+    idt = Ident(ix)
+    ctx.rule("R10.1", "position stores/removes key on the acting (vamm, trader)", 9)
+    ctx.rule("R10.2", "tmp-swap.trader origin at every store of the record", 4)
+    ctx.rule("R10.3", "Position.vamm / Position.trader assigned only from the requested key", 1)
+    ctx.rule("R10.4", "query entry points take Deps (read-only); no unsafe code in any workspace crate (fixture must fire)", 7)
+    ctx.rule("R10.5", "DepositMargin: stored position's trader proven equal to info.sender before the store", 1)
+
+    steps = poskey_instances(ctx, "R10.1")
 
     # ---------------------------------------------------------------- R10.6
     # the key hashes vamm || trader: without framing, (vamm, trader) pairs whose concatenations coincide share a slot
